@@ -204,6 +204,51 @@ type Nest3 struct {
 	Tail []int64
 }
 `},
+	// every leaf type, required and optional, below an optional and below a
+	// repeated group (definition levels strictly between 0 and the maximum)
+	{Name: "nest16", Type: "Nest16", Src: `
+type In16 struct {
+	B    bool
+	OB   *bool
+	I32  int32
+	OI32 *int32
+	U32  uint32
+	OU32 *uint32
+	I64  int64
+	OI64 *int64
+	U64  uint64
+	OU64 *uint64
+	F32  float32
+	OF32 *float32
+	F64  float64
+	OF64 *float64
+	S    string
+	OS   *string
+}
+
+type Nest16 struct {
+	ID int32
+	O  *In16
+	R  []In16
+}
+`},
+	// single-column records: the last column of a row group is also the
+	// first column of the next one
+	{Name: "one", Type: "One", Src: `
+type One struct {
+	N int64
+}
+`},
+	{Name: "oneopt", Type: "OneOpt", Src: `
+type OneOpt struct {
+	S *string
+}
+`},
+	{Name: "onerep", Type: "OneRep", Src: `
+type OneRep struct {
+	L []int32
+}
+`},
 }
 
 // Get returns a catalogue shape.
